@@ -536,6 +536,38 @@ func init() {
 	// ---------- sort ----------
 	reg("sort.Slice", func(ex *Exec, a []Val) Val { ex.sortSlice(a[0], a[1].(FuncV), false); return nil })
 	reg("sort.SliceStable", func(ex *Exec, a []Val) Val { ex.sortSlice(a[0], a[1].(FuncV), true); return nil })
+	sortIface := func(stable bool) Intrinsic {
+		return func(ex *Exec, a []Val) Val {
+			iv := a[0].(IfaceV)
+			n := ex.concretizeInt(ex.invokeByName(iv, "Len", nil).(*Term), 0, 64, "sort.Sort Len")
+			less := func(i, j int) *Term {
+				return ex.invokeByName(iv, "Less", []Val{ex.tf.BVu(uint64(i), 64), ex.tf.BVu(uint64(j), 64)}).(*Term)
+			}
+			for i := 1; i < n; i++ {
+				j := i
+				for j > 0 {
+					if ex.Branch(less(j, j-1)) {
+						ex.invokeByName(iv, "Swap", []Val{ex.tf.BVu(uint64(j), 64), ex.tf.BVu(uint64(j-1), 64)})
+						j--
+						continue
+					}
+					if !stable && ex.mapOrder == "permute" {
+						if !ex.Branch(less(j-1, j)) {
+							if ex.Branch(ex.freshVar("sorttie", BoolSort)) {
+								ex.invokeByName(iv, "Swap", []Val{ex.tf.BVu(uint64(j), 64), ex.tf.BVu(uint64(j-1), 64)})
+								j--
+								continue
+							}
+						}
+					}
+					break
+				}
+			}
+			return nil
+		}
+	}
+	reg("sort.Sort", sortIface(false))
+	reg("sort.Stable", sortIface(true))
 	reg("sort.Strings", func(ex *Exec, a []Val) Val {
 		s := a[0].(SliceV)
 		el := append([]Val{}, ex.sliceElems(s)...)
@@ -849,3 +881,24 @@ func (ex *Exec) sprintf(format Val, args []Val) Val {
 }
 
 var _ = sort.Strings
+
+// invokeByName calls a method of the dynamic type of an interface value.
+func (ex *Exec) invokeByName(iv IfaceV, name string, args []Val) Val {
+	if iv.T == nil {
+		ex.goPanic("method " + name + " on nil interface")
+	}
+	ms := ex.w.prog.MethodSets.MethodSet(iv.T)
+	for i := 0; i < ms.Len(); i++ {
+		sel := ms.At(i)
+		if sel.Obj().Name() == name {
+			fn := ex.w.prog.MethodValue(sel)
+			full := append([]Val{iv.V}, args...)
+			if r, ok := ex.tryIntrinsic(fn, full); ok {
+				return r
+			}
+			return ex.callFunction(fn, full)
+		}
+	}
+	ex.unmodelled("no method " + name + " on " + iv.T.String())
+	return nil
+}
